@@ -3,6 +3,7 @@
 import json, os, glob, re
 V = os.path.dirname(os.path.dirname(os.path.abspath(__file__)))
 rows_seed, rows_rev = [], []
+NEEDS = json.load(open(os.path.join(V, "scripts", "seed_needs.json")))
 for d in sorted(glob.glob(os.path.join(V, "seeded", "*"))):
     mp = os.path.join(d, "meta.json")
     if not os.path.exists(mp):
@@ -21,7 +22,7 @@ for name, m in rows_seed:
     for p in m.get("detected_by", []):
         for k in m["checks"][p]["keys"][:1]:
             keys.append(re.sub(r"^key=", "", k).split(" count=")[0][:90])
-    out.append("| %s | %s | %s | %s | %s |" % (name, m.get("needs_to_manifest", "")[:170], "yes" if m.get("compiles_and_suite_passes") else "NO",
+    out.append("| %s | %s | %s | %s | %s |" % (name, str(NEEDS.get(name) or m.get("needs_to_manifest", ""))[:170], "yes" if m.get("compiles_and_suite_passes") else "NO",
                ", ".join(m.get("detected_by", [])) or "**MISSED**", "; ".join(keys)[:200].replace("|", "/")))
 nd = sum(1 for _, m in rows_seed if m.get("detected_by"))
 out.append("\n%d of %d seeded defects are detected by the quick tier of at least one check.\n" % (nd, len(rows_seed)))
